@@ -1,3 +1,3 @@
-(* _client.py :: ncrypt_unprotect_secret :: ('callarg', '_sync_get_key', 0, 4) :  blob.key_identifier.l1 *)
-Definition k_onl_unprot_arg4 (blob_key_identifier_l1 : Z) : Z :=
-  blob_key_identifier_l1.
+(* _client.py :: ncrypt_unprotect_secret :: shape kernel :  _sync_get_key(... 4: blob.key_identifier.l1  [= DPAPINGBlob.unpack(data).key_identifier.l1] ...) *)
+Definition k_onl_unprot_arg4 (l1 : Z) : Z :=
+  l1.
